@@ -5,6 +5,7 @@ package main
 // (aliasing of query objects, for instance, which immutable Gallina values cannot express).
 
 import (
+	"errors"
 	"fmt"
 	"reflect"
 
@@ -218,6 +219,27 @@ func readOracles(db *clover.DB, q QSpec, bigIntsAway bool) (fails []string) {
 		} else if totalOrNoSort(q) && !sameSeq(visited, all[:want]) {
 			bad("ForEach visited a different prefix than FindAll returns")
 		}
+	}
+	// IterateDocs with a consumer that fails: the consumer's own error comes back (on every backend), after a prefix
+	var iterSeen []*d.Document
+	failAfter := 1 + len(all)/2
+	errConsumer := errors.New("consumer failed")
+	ierr := db.IterateDocs(qq, func(doc *d.Document) error {
+		iterSeen = append(iterSeen, doc)
+		if len(iterSeen) == failAfter {
+			return errConsumer
+		}
+		return nil
+	})
+	check("IterateDocs")
+	if len(all) >= failAfter {
+		if ierr != errConsumer {
+			bad("IterateDocs returned %v instead of the error its consumer returned after %d documents", ierr, failAfter)
+		} else if len(iterSeen) != failAfter {
+			bad("IterateDocs called its consumer %d times although it failed at call %d", len(iterSeen), failAfter)
+		}
+	} else if ierr != nil {
+		bad("IterateDocs failed with %v although its consumer never did", ierr)
 	}
 	return fails
 }
